@@ -46,6 +46,11 @@ CHECKS = {
         technique="bounded symbolic execution (SymAVM/z3) of the Router's emitted approval and clear-state programs against the dispatch table derived from the registration data; selector bytes, OnCompletion, ApplicationID and NumAppArgs symbolic; SMT obligation per (table row, program path); models replayed concretely",
         text="For every enumerated router configuration (one method x every MethodConfig in {NEVER,CALL,CREATE,ALL}^5 in the thorough tier; bare actions x CallConfig vectors x action kinds; bare-only routers; 2-3 methods; clear-state action absent / Expr / Subroutine / ABIReturnSubroutine; versions 6..10; assemble_constants and frame-pointer settings) z3 shows for ALL calls - every 4-byte selector value and other argument lengths, NumAppArgs 0..16, OnCompletion 0..5 except ClearState, ApplicationID zero/non-zero - that handler H's tag is logged and the call approved exactly when the registration allows it and that every other call is rejected (fails or returns 0), and that the clear-state program runs exactly the given action or rejects. The contract must list exactly the registered methods. Selectors are computed here with SHA-512/256.",
         note="Trusted: the dispatch-table reading of the registration data (verif/router.py), TEAL op semantics, z3, the ledger assumption that an approval program never runs with OnCompletion=ClearState. Bounds: <= 3 methods per router; enumerated configurations."),
+    "C09": dict(
+        category="model_checking", design_ref="DESIGN.md 3/C09",
+        technique="bounded symbolic execution (SymAVM/z3) of the Router's approval program on a call built by an ARC-4 calling-convention model with symbolic argument values and symbolic types of the preceding group transactions; SMT obligation per path pair on the ordered logs; models replayed concretely with algosdk.abi",
+        text="For every enumerated method signature - 0..20 plain parameters around the 15-argument cut-off with static/dynamic 14th, 15th and last parameters, every leaf and several composite types as a parameter, transaction parameters of every kind in every position (1..3), signatures with more than 15 parameters but at most 15 application arguments, reference parameters, void / echoed / constant results of several types, overridden method names; versions 6..10, both glue flavours - z3 shows for ALL argument values that the handler receives exactly the encoded values (its logs of encode() per parameter, group index and type per transaction parameter, foreign index per reference), that a wrong transaction type fails, and that a non-void result is logged exactly once as 0x151f7c75 + its reference encoding before approval. The returned contract must describe exactly the registered signature, and the program must dispatch on that signature's SHA-512/256 selector.",
+        note="Trusted: the ARC-4 calling-convention model (verif/methodcall.py + verif/arc4/model.py, replay through algosdk.abi), TEAL op semantics, z3. Bounds: enumerated signatures; dynamic lengths from the listed vectors; one method per router."),
     "C10": dict(
         category="model_checking", design_ref="DESIGN.md 3/C10",
         technique="translation validation of marker programs: SymAVM(emitted TEAL) vs the recipe semantics with one cell per variable, markers derived from a symbolic input, z3/term identity per path; models replayed concretely",
